@@ -23,8 +23,8 @@ import (
 )
 
 type selSpec struct {
-	agency, route, rtype, dir, stop int
-	hasTD                           bool
+	agency, route, rtype, dir, stop    int
+	hasTD                              bool
 	tdTrip, tdRoute, tdDir, tdST, tdSD int
 	tdSR                               int // 0 absent, 1 CANCELED, 2 SCHEDULED
 }
@@ -63,6 +63,9 @@ func (s selSpec) build() *gtfsrt.EntitySelector {
 		if s.tdST == 1 {
 			d.StartTime = sp("10:00:00")
 		}
+		if s.tdST == 2 {
+			d.StartTime = sp("25:30:00") // past midnight: a start time like any other
+		}
 		if s.tdSD == 1 {
 			d.StartDate = sp("20240102")
 		}
@@ -87,7 +90,7 @@ func genFullSelector(c *Ctx, p string) selSpec {
 	s := selSpec{agency: c.Free(p+"agency", 2), route: c.Free(p+"route", 3), rtype: c.Free(p+"route_type", 3), dir: c.Free(p+"direction", 3), stop: c.Free(p+"stop", 2)}
 	if c.Free(p+"trip", 2) == 1 {
 		s.hasTD = true
-		s.tdTrip, s.tdRoute, s.tdDir, s.tdST, s.tdSD = c.Free(p+"trip.trip_id", 2), c.Free(p+"trip.route", 3), c.Free(p+"trip.direction", 3), c.Free(p+"trip.start_time", 2), c.Free(p+"trip.start_date", 2)
+		s.tdTrip, s.tdRoute, s.tdDir, s.tdST, s.tdSD = c.Free(p+"trip.trip_id", 2), c.Free(p+"trip.route", 3), c.Free(p+"trip.direction", 3), c.Free(p+"trip.start_time", 3), c.Free(p+"trip.start_date", 2)
 		s.tdSR = c.Free(p+"trip.schedule_relationship", 3)
 	}
 	return s
@@ -240,7 +243,7 @@ func init() {
 	register(&Check{
 		ID:    "C12",
 		Level: "model_checking",
-		Rule: "full products: all 23 436 single selectors (incl. a schedule relationship on the descriptor); every GTFS route type 0-7, 11, 12 and five unknown values x plain fields; all 14 400 ordered pairs over a 120-selector sub-alphabet (plain {none,R1,R2,stop,agency} x 12 descriptor classes x own direction) in one alert and split over two alerts; thorough adds all 1 728 000 triples over the 120, all 13 824 triples over 24 selectors (kept as a fast subset) and all pairs (120 x 7 884); all map rotations of the fall-back loop; " +
+		Rule: "full products: all single selectors (incl. a schedule relationship on the descriptor and a start time past midnight); every GTFS route type 0-7, 11, 12 and five unknown values x plain fields; all 14 400 ordered pairs over a 120-selector sub-alphabet (plain {none,R1,R2,stop,agency} x 12 descriptor classes x own direction) in one alert and split over two alerts; thorough adds all 1 728 000 triples over the 120, all 13 824 triples over 24 selectors (kept as a fast subset) and all pairs (120 x 7 884); all map rotations of the fall-back loop; " +
 			"non-trivial = distinct messages with at least one trip descriptor in a selector; oracle = reference normaliser + output invariants",
 		Assumptions: []string{"for descriptors with a route and only part of a start (or a schedule relationship) the route fall-back is neither required nor forbidden", "a route type outside the GTFS list informs nothing"},
 		Scenarios: func(tier string) []*Scenario {
